@@ -8,7 +8,7 @@ import time
 from . import common as C
 
 CORE_OPS = "afFsp12345X"            # the calls named in the property statement
-ALL_OPS = "afFsp12345vwxyzXnmoqr"   # + clear(type) spellings and null arguments
+ALL_OPS = "afFsp12345vwxyzXnmoqrABGSP"   # + clear(type) spellings, null arguments, objects passed before
 
 
 def gen_sequences(tier, seed):
@@ -16,11 +16,13 @@ def gen_sequences(tier, seed):
     seqs = []
     exh = 4 if tier == "quick" else 5
     seqs += ["".join(t) for t in itertools.product(CORE_OPS, repeat=exh)]
+    # ... and every short sequence in which handler objects are passed a second time
+    seqs += ["".join(t) for t in itertools.product("afsFABS", repeat=exh) if any(c in "ABS" for c in t)]
     n_rand = 400 if tier == "quick" else 6000
     for _ in range(n_rand):
         n = rnd.randint(1, 40)
         # bias towards appends so lists get long, with bursts of clears
-        w = [6 if c in "afFsp" else 1 for c in ALL_OPS]
+        w = [6 if c in "afFsp" else 3 if c in "ABGSP" else 1 for c in ALL_OPS]
         seqs.append("".join(rnd.choices(ALL_OPS, weights=w, k=n)))
     return seqs, exh
 
